@@ -24,8 +24,10 @@ EXPLANATION = (
     "the estimation block is the field-for-field sibling of the ground-truth block; the area index uses the ego-frame position; "
     "(3) errors – calculate_error takes ground truth minus estimation over the paired TP/FP/TN rows, wraps yaw by exactly +-2*pi, "
     "distance / nn-plane errors are norms; summaries are mean / sqrt(mean(err^2)) / std / max|err| / min|err|; ratios TP/GT, FP/(TP+FP), "
-    "TN/GT, FN/GT; (4) counts - TP/FP are counted on estimation rows, TN/FN and ground truths on ground-truth rows, placeholder rows (absent side, all None) are removed by the side getters; the confusion matrix counts the paired rows only (index = n*gt_label + est_label). Does not decide: pandas semantics, "
-    "counts as values."
+    "TN/GT, FN/GT; (4) counts - TP/FP are counted on estimation rows, TN/FN and ground truths on ground-truth rows, placeholder rows (absent side, all None) are removed by the side getters; the confusion matrix counts the paired rows only (index = n*gt_label + est_label); (5) the pass/fail lists "
+    "that are tabulated are computed from the critically filtered ground truth (rule shared with C03); (6) analyze(): a scene / area / distance selection applies iff the "
+    "argument is not None (0 is a valid index; no truthiness test on any optional index parameter of the analyzer), every table is computed from the selected rows, and the row "
+    "filter keeps both rows of a pair. Does not decide: pandas semantics, counts as values, plots."
 )
 
 AB = "tool.perception_analyzer_base.PerceptionAnalyzerBase."
